@@ -82,7 +82,8 @@ func genC04(t *rapid.T) c04Case {
 	c.Stall = rapid.IntRange(0, 2).Draw(t, "stall")
 	c.Second = rapid.IntRange(0, 2).Draw(t, "second") == 0
 	if rapid.IntRange(0, 2).Draw(t, "points") == 0 {
-		c.Cfg.Points = rapid.SliceOfNDistinct(rapid.SampledFrom(streamPoints), 1, 4, func(s string) string { return s }).Draw(t, "pts")
+		// (including the consumer held inside Unmarshal while it still borrows the stream's read buffer)
+		c.Cfg.Points = rapid.SliceOfNDistinct(rapid.SampledFrom(append([]string{"harness.Unmarshal.holding", "harness.Unmarshal.holding", "manager.manageReader.beforeDispatch"}, streamPoints...)), 1, 4, func(s string) string { return s }).Draw(t, "pts")
 		c.Cfg.PointLimit = 6
 	}
 	c.Choices = rapid.SliceOfN(rapid.SampledFrom(c04Kinds), 0, 40).Draw(t, "choices")
